@@ -245,5 +245,19 @@ let () =
                 | Some (i, el) -> "fail:answer-is-not-that-of-the-call-alone:call" ^ string_of_int i ^ ":" ^ String.sub el 0 (min 1 (String.length el))
                 | None -> "ok")) in
         finish expected verdict
+    | "sweep", [mf; target; _; _] ->
+        (* a long history of MailboxForAddress lookups, compressed by the driver: the target's name must never
+           change, and every other lookup must be ExtractMailbox of its argument *)
+        let m = (match mf with "0" -> Local | "1" -> Full | _ -> Domain) in
+        let expected = [opt_field (extract_mailbox pip m (str_of_field target)); "0"; "-"; "0"] in
+        let verdict =
+          match outs with
+          | [_; _; k; _; j] ->
+              if k <> "0" then "fail:same-lookup-different-name-within-one-process:after-" ^ k ^ "-other-lookups"
+              else if j <> "0" then "fail:mailbox-for-address-differs-from-extract-mailbox:lookup-" ^ j
+              else "ok"
+          | "PANIC" :: _ -> "fail:panic"
+          | _ -> "fail:no-answer" in
+        finish expected verdict
     | "live", _ -> live pip iptab ins outs
     | _ -> Mlutil.print_model ["UNKNOWN-KIND"] "ok")
